@@ -8,7 +8,7 @@ from .speclib import REG, Contract
 
 M_LA = "pytestarch.query_language.layered_architecture_rule"
 vals.declare_obj("LayeredArchitecture", dict(_modules_by_layer_name="Dict[Str,Bag[Filter]]"))
-vals.declare_obj("LayerRule", dict(_rule="Opt[Rule]", _architecture="Opt[LayeredArchitecture]", _rule_matcher_class="Opaque[MatcherClass]"))
+vals.declare_obj("LayerRule", dict(_rule="Opt[Rule]", _architecture="Opt[LayeredArchitecture]", _rule_matcher_class="Opaque[Class]"))
 LR = "LayerRule"
 _UNCH = ["self._architecture == old(self)._architecture", "self._rule_matcher_class == old(self)._rule_matcher_class"]
 REG.add(Contract(f"{LR}.based_on", module=M_LA, kind="method", params=dict(self=LR, architecture="LayeredArchitecture"), returns=LR, modifies=["self"],
@@ -161,7 +161,7 @@ REG.add(Contract(f"{LA}.__getitem__", module=M_LA, kind="method", params=dict(se
                  raises=[("KeyError", "not (layer in self._modules_by_layer_name)")], defn="self._modules_by_layer_name[layer]", properties=["C13", "C16"]))
 REG.add(Contract(f"{LA}.layer_mapping", module=M_LA, kind="property", status="bounded", params=dict(self=LA), returns="Opaque[LayerMapping]",
                  note="LayerMapping(self._modules_by_layer_name): construction and lookup are covered by the bounded C05 / C14 stand-ins"))
-REG.add(Contract("partial", status="assumed", params=dict(func="Opaque[MatcherClass]", layer_mapping="Opaque[LayerMapping]"), returns="Opaque[MatcherClass]",
+REG.add(Contract("partial", status="assumed", params=dict(func="Opaque[Class]", layer_mapping="Opaque[LayerMapping]"), returns="Opaque[Class]",
                  note="functools.partial(matcher class, layer_mapping=...): the matcher class the inner Rule instantiates"))
 REG.add(Contract("Rule._add_modules", module="pytestarch.query_language.rule", kind="method", status="bounded",
                  params=dict(self="Rule", modules="Bag[Tuple[Node,Bool]]"), returns="Rule", modifies=["self"],
